@@ -549,8 +549,8 @@ func init() {
 		ID:  "C02",
 		Run: runC02,
 		Rule: "case = seeded set of 1-4 stream tasks (1-2 dbrps, 1-3 from() nodes with measurement/database/retentionPolicy/where drawn from a 2x2x3 universe) " +
-			"(where() over a field every point carries, or over a tag / a field only some points carry; a fifth of the writes name no retention policy and go to the daemon's default one) " +
-			"x 1-3 concurrent HTTP writers x optional start/stop/delete churn of other tasks x one seeded schedule and knob set; " +
+			"(where() over a field every point carries - in a third of these cases followed by a second .where() on the same from() -, or over a tag / a field only some points carry; a fifth of the writes name no retention policy and go to the daemon's default one) " +
+			"x 1-3 concurrent HTTP writers (in a quarter of the cases all writing one db/rp/measurement) x optional start/stop/delete churn (churned tasks may be enabled only once data is flowing; one that was started and not stopped again is owed everything written after its StartTask returned; one case in ten is a task that becomes the first subscriber of the one key being written) of other tasks x one seeded schedule and knob set; " +
 			"non-trivial = at least one from() node was owed at least one acknowledged point; distinct = distinct (scenario, interleaving signature) pairs",
 		Real:        []string{"services/httpd Handler (write endpoint)", "TaskMaster (WritePoints, forkPoint, newFork/delFork, StartTask/StopTask/DeleteTask)", "ExecutingTask, StreamNode, FromNode, LogNode", "edge (channelEdge, consumers)", "tick parser/evaluator, pipeline", "services/alert (opened, idle)", "services/diagnostic"},
 		Stub:        []string{"libflux (C stub, never called)", "storage service wrapper over real bbolt", "no sockets: requests go to Handler.ServeHTTP in-process"},
